@@ -52,13 +52,13 @@ Definition adaptive_obj (N : nat) (sw : vec) (maximise : bool) : obj :=
 
 Record acase := { a_K : kmat; a_A : mat; a_n : nat; a_lb : vec; a_ub : vec; a_base : vec; a_neutral : vec; a_B : mat;
                   a_d1 : Q; a_dr : Q; a_sw : vec; a_max : bool;
-                  a_X : mat; a_scales : vec; a_Bpred : mat; a_cert : cert; a_tol_obj : Q; a_tol : Q }.
+                  a_X : mat; a_scales : vec; a_Z0 : vec; a_Bpred : mat; a_cert : cert; a_tol_obj : Q; a_tol : Q }.
 Definition a_qcase (c : acase) : qcase :=
   let A' := transA (a_K c) (a_A c) (a_n c) in let base' := transB (a_K c) (a_base c) in
   let z := concat (a_X c) ++ a_scales c in
   {| q_inst := adaptive_inst A' base' (a_n c) (a_lb c) (a_ub c) (a_neutral c) (a_B c) (a_d1 c) (a_dr c);
      q_obj := adaptive_obj (length (a_B c) * a_n c) (a_sw c) (a_max c);
-     q_x := z; q_cert := a_cert c; q_x0 := z; q_eps := a_tol_obj c; q_tolb := a_tol c; q_tol := a_tol c |}.
+     q_x := z; q_cert := a_cert c; q_x0 := a_Z0 c; q_eps := a_tol_obj c; q_tolb := a_tol c; q_tol := a_tol c |}.
 Definition averdict (c : acase) : bool :=
   qverdict (a_qcase c) &&
   forallb (fun s => qlt 0 s) (a_scales c) && Nat.eqb (length (a_scales c)) 2 &&
